@@ -255,6 +255,33 @@ func (g *Gen) initTrusted() {
 		}
 		return Val{}, true
 	}
+	// schema.ParseGroupVersion(s) = (GroupVersion{Group: gvGroup(s), Version: gvVersion(s)}, err) with err == nil iff gvOk(s):
+	// the parse is a function of the string alone (uninterpreted here)
+	t["k8s.io/apimachinery/pkg/runtime/schema.ParseGroupVersion"] = &Trusted{pure: true, rule: func(fc *FnCtx, st *State, in ssa.Instruction, c *ssa.CallCommon, args []Val, resT types.Type) (Val, bool) {
+		tup, ok := resT.(*types.Tuple)
+		if !ok || tup.Len() != 2 {
+			return Val{}, false
+		}
+		gvT := tup.At(0).Type()
+		stt, ok := gvT.Underlying().(*types.Struct)
+		if !ok {
+			return Val{}, false
+		}
+		fc.useTrusted("schema.ParseGroupVersion(s) is a function of s: Group = gvGroup(s), Version = gvVersion(s), error nil iff gvOk(s)")
+		fc.q.declareFun("gvGroup", []string{sStr}, sStr)
+		fc.q.declareFun("gvVersion", []string{sStr}, sStr)
+		fc.q.declareFun("gvOk", []string{sStr}, sBool)
+		ref := st.newRef()
+		for i := 0; i < stt.NumFields(); i++ {
+			a := fc.fieldAddrOf(ref, gvT, i)
+			v := app("gvVersion", args[0].T)
+			if stt.Field(i).Name() == "Group" {
+				v = app("gvGroup", args[0].T)
+			}
+			st.heap[a.Arr] = sto(st.get(a.Arr), a.T, v)
+		}
+		return Val{Tup: []Val{{SV: &StructVal{st: st.clone(), ref: ref}, Typ: gvT}, errVal(fc, st, app("gvOk", args[0].T))}}, true
+	}}
 	t["sort.Sort"] = &Trusted{rule: sortRule}
 	t["sort.Stable"] = &Trusted{rule: sortRule}
 	deepEq := func(fc *FnCtx, st *State, in ssa.Instruction, c *ssa.CallCommon, args []Val, resT types.Type) (Val, bool) {
